@@ -35,14 +35,31 @@ fn moments(op: &Op) -> R {
     let offset = op.aux.get(3).and_then(|a| a.first()).copied().unwrap_or(0) as f64;
     let p = op.idx.first().copied().unwrap_or(0).min(10) as u16;
     let vals: Vec<f64> = ints.iter().map(|&v| v as f64 * scale + offset).collect();
+    // optional shape / layout: the same values as a 2-D or 3-D array in C order, F order or with reversed axes
+    let shape: Vec<usize> = op.aux.get(4).map(|a| a.iter().map(|&x| x.max(1) as usize).collect()).unwrap_or_default();
+    let layout = op.aux.get(5).and_then(|a| a.first()).copied().unwrap_or(0);
+    let shape = if !shape.is_empty() && shape.iter().product::<usize>() == vals.len() { shape } else { vec![vals.len()] };
     if kind == 1 {
-        moments_t(Array1::from(vals.iter().map(|&v| v as f32).collect::<Vec<f32>>()), p, |x: f32| x.to_bits() as u64)
+        moments_nd(vals.iter().map(|&v| v as f32).collect::<Vec<f32>>(), &shape, layout, p, |x: f32| x.to_bits() as u64)
     } else {
-        moments_t(Array1::from(vals), p, |x: f64| x.to_bits())
+        moments_nd(vals, &shape, layout, p, |x: f64| x.to_bits())
     }
 }
 
-fn moments_t<T>(a: Array1<T>, p: u16, bits: impl Fn(T) -> u64) -> R
+fn moments_nd<T>(vals: Vec<T>, shape: &[usize], layout: i64, p: u16, bits: impl Fn(T) -> u64) -> R
+where
+    T: Float + FromPrimitive + std::fmt::Debug,
+{
+    let a = build(shape, vals, layout == 1);
+    if layout == 2 && a.ndim() >= 2 {
+        let a = a.reversed_axes();
+        moments_t(a, p, bits)
+    } else {
+        moments_t(a, p, bits)
+    }
+}
+
+fn moments_t<T>(a: ArrayD<T>, p: u16, bits: impl Fn(T) -> u64) -> R
 where
     T: Float + FromPrimitive + std::fmt::Debug,
 {
@@ -55,7 +72,7 @@ where
         if bits(single) != bits(bulk[k as usize]) {
             return Err((
                 "bulk-vs-single:moments".into(),
-                format!("central_moments({})[{}] = {:?} but central_moment({}) = {:?} (not bit-identical) on {} values of type {}, first few {:?}", p, k, bulk[k as usize], k, single, a.len(), std::any::type_name::<T>(), a.iter().take(6).collect::<Vec<_>>()),
+                format!("central_moments({})[{}] = {:?} but central_moment({}) = {:?} (not bit-identical) on {} values of type {} (shape {:?}, strides {:?}), first few {:?}", p, k, bulk[k as usize], k, single, a.len(), std::any::type_name::<T>(), a.shape(), a.strides(), a.iter().take(6).collect::<Vec<_>>()),
             ));
         }
     }
